@@ -27,19 +27,11 @@ package bcl
 //@   loop 1 invariant ranges: 0 <= vm.tos && vm.tos <= 1024 && 0 <= vm.blockTos && vm.blockTos <= 16 && vm.pc >= 0 && vm.prog == old(vm.prog) && vm.prog.linePos != nil && !overflow
 //@   loop 1 invariant blocks_have_maps: forall i int :: 0 <= i && i < vm.blockTos ==> vm.blockStack[i].Fields != nil
 //
-//@   loop 1 assume tables_aligned: len(vm.prog.positions) == len(vm.prog.code)
-//@   loop 1 assume at_instruction: 0 <= vm.pc && vm.pc < len(vm.prog.code) && knownOp(opcode(vm.prog.code[vm.pc])) && opcode(vm.prog.code[vm.pc]) != opLOOP
-//@   loop 1 assume operand_u: (fmtOf(opcode(vm.prog.code[vm.pc])) == FU() || fmtOf(opcode(vm.prog.code[vm.pc])) == FUU() || fmtOf(opcode(vm.prog.code[vm.pc])) == FUB()) ==> vm.pc + 1 < len(vm.prog.code) && vm.pc + 1 + uvneed(vm.prog.code[vm.pc+1]) <= len(vm.prog.code)
-//@   loop 1 assume operand_uu: fmtOf(opcode(vm.prog.code[vm.pc])) == FUU() ==> vm.pc + 1 + uvneed(vm.prog.code[vm.pc+1]) < len(vm.prog.code) && vm.pc + 1 + uvneed(vm.prog.code[vm.pc+1]) + uvneed(vm.prog.code[vm.pc+1+uvneed(vm.prog.code[vm.pc+1])]) <= len(vm.prog.code)
-//@   loop 1 assume operand_ub: fmtOf(opcode(vm.prog.code[vm.pc])) == FUB() ==> vm.pc + 1 + uvneed(vm.prog.code[vm.pc+1]) < len(vm.prog.code)
-//@   loop 1 assume operand_j: fmtOf(opcode(vm.prog.code[vm.pc])) == FJ() ==> vm.pc + 3 <= len(vm.prog.code)
-//@   loop 1 assume operands_on_stack: vm.tos >= needOf(opcode(vm.prog.code[vm.pc]))
-//@   loop 1 assume const_operand: (opcode(vm.prog.code[vm.pc]) == opCONST || opcode(vm.prog.code[vm.pc]) == opGETFIELD || opcode(vm.prog.code[vm.pc]) == opSETFIELD || opcode(vm.prog.code[vm.pc]) == opDEFBLOCK || opcode(vm.prog.code[vm.pc]) == opBIND) ==> operand1(vm) < uint64(len(vm.prog.constants))
-//@   loop 1 assume name_operand: (opcode(vm.prog.code[vm.pc]) == opGETFIELD || opcode(vm.prog.code[vm.pc]) == opSETFIELD || opcode(vm.prog.code[vm.pc]) == opDEFBLOCK || opcode(vm.prog.code[vm.pc]) == opBIND) ==> is_str(vm.prog.constants[int(operand1(vm))])
-//@   loop 1 assume name2_operand: opcode(vm.prog.code[vm.pc]) == opDEFBLOCK ==> operand2(vm) < uint64(len(vm.prog.constants)) && is_str(vm.prog.constants[int(operand2(vm))])
-//@   loop 1 assume slot_live: (opcode(vm.prog.code[vm.pc]) == opGETLOCAL ==> operand1(vm) < uint64(vm.tos)) && (opcode(vm.prog.code[vm.pc]) == opSETLOCAL ==> operand1(vm) + 1 < uint64(vm.tos))
-//@   loop 1 assume popn_within: opcode(vm.prog.code[vm.pc]) == opPOPN ==> operand1(vm) <= uint64(vm.tos)
-//@   loop 1 assume in_block: (opcode(vm.prog.code[vm.pc]) == opENDBLOCK || opcode(vm.prog.code[vm.pc]) == opSETFIELD || opcode(vm.prog.code[vm.pc]) == opGETFIELD) ==> vm.blockTos >= 1
+//@   loop 1 assume instruction_well_formed: wfInstr(vm.prog, vm.pc)
+//@   loop 1 assume operands_on_stack: vm.tos >= needOf(curop(vm))
+//@   loop 1 assume slot_live: (curop(vm) == opGETLOCAL ==> operand1(vm) < uint64(vm.tos)) && (curop(vm) == opSETLOCAL ==> operand1(vm) + 1 < uint64(vm.tos))
+//@   loop 1 assume popn_within: curop(vm) == opPOPN ==> operand1(vm) <= uint64(vm.tos)
+//@   loop 1 assume in_block: (curop(vm) == opENDBLOCK || curop(vm) == opSETFIELD || curop(vm) == opGETFIELD) ==> vm.blockTos >= 1
 //
 // --- what one iteration does (relations between the loop head and the back edge) ---
 // stack depth and program counter follow the stack-effect / operand-format table (C10 link)
@@ -102,13 +94,16 @@ package bcl
 //@   ensures [C03] name_pseudo_field: name == "NAME" ==> ok && v == VStr(vm.blockStack[vm.blockTos-1].Name)
 //@   ensures [C02,C03] innermost_block_having_the_field: (name != "TYPE" && name != "NAME" && ok) ==> (exists i int :: 0 <= i && i < vm.blockTos && has(vm.blockStack[i].Fields, name) && v == vm.blockStack[i].Fields[name] && (forall j int :: i < j && j < vm.blockTos ==> !has(vm.blockStack[j].Fields, name)))
 //@   ensures [C02,C03] unresolved_only_if_no_block_has_it: (name != "TYPE" && name != "NAME" && !ok) ==> (forall j int :: 0 <= j && j < vm.blockTos ==> !has(vm.blockStack[j].Fields, name))
-//@   loop 1 invariant 0 - 1 <= i && i < vm.blockTos && name != "TYPE" && name != "NAME" && (forall j int :: i < j && j < vm.blockTos ==> !has(vm.blockStack[j].Fields, name))
+//@   loop 1 invariant 0 - 1 <= i && i < vm.blockTos && name != "TYPE" && name != "NAME" && !ok && (forall j int :: i < j && j < vm.blockTos ==> !has(vm.blockStack[j].Fields, name))
 //@   modifies nothing
 
 // observers called from the trace branch (details: C19)
 //@ group C19,C06
 //@ func printStack
+//@   loop 1 invariant 0 - 1 <= rangeindex
 //@   modifies nothing
 //@ func (*Prog).disasmInstr
-//@   requires in_code: 0 <= offset && offset < len(p.code) && len(p.positions) == len(p.code) && p.linePos != nil
+//@   requires line_table: p.linePos != nil
+//@   requires instruction_well_formed: wfInstr(p, offset)
+//@   ensures [C10,C19] next_instruction: result == offset + instrLen(p, offset)
 //@   modifies nothing
